@@ -805,6 +805,17 @@ func runParallel[C any](t *testing.T, r *ev.Rec, cases []C, eval func(C) evalRes
 		if out[i].Retry {
 			// a time-out under concurrent load is only believed when it reproduces alone
 			r.Class("rerun-alone-after-timeout", 1)
+			if out[i].V.Err != nil {
+				msg := out[i].V.Err.Error()
+				if len(msg) > 600 {
+					msg = msg[:600]
+				}
+				cj, _ := json.Marshal(cases[i])
+				if len(cj) > 2500 {
+					cj = cj[:2500]
+				}
+				r.Note("case %d timed out under concurrent load and was re-run alone; first run: [%s] %s\ncase: %s", i, out[i].V.Key, msg, cj)
+			}
 			out[i] = safeEval(eval, cases[i])
 		}
 		if out[i].V.Err != nil && !r.IsKnown(out[i].V.Key) {
@@ -867,20 +878,22 @@ func writeConfig(dir string, c emuConfig) error {
 			// the writer side: waits (without blocking for ever) until somebody opens the pipe for reading
 			deadline := time.Now().Add(30 * time.Second)
 			for time.Now().Before(deadline) {
-				fd, err := syscall.Open(path, syscall.O_WRONLY|syscall.O_NONBLOCK, 0)
-				if err == syscall.ENXIO || err == syscall.EINTR {
+				fd, err := syscall.Open(path, syscall.O_WRONLY|syscall.O_NONBLOCK|syscall.O_CLOEXEC, 0)
+				if err == syscall.ENOENT || err == syscall.ENOTDIR {
+					return // the case is over, its directory is gone
+				}
+				if err != nil {
+					// nobody reads yet (ENXIO), or a passing shortage (EINTR, EMFILE under many parallel cases): try again
 					time.Sleep(3 * time.Millisecond)
 					continue
 				}
-				if err != nil {
-					return // the case is over, its directory is gone
-				}
 				_ = syscall.SetNonblock(fd, false)
+				f := os.NewFile(uintptr(fd), path)
 				half := len(text) / 2
-				_, _ = syscall.Write(fd, []byte(text[:half]))
+				_, _ = f.Write([]byte(text[:half]))
 				time.Sleep(15 * time.Millisecond)
-				_, _ = syscall.Write(fd, []byte(text[half:]))
-				_ = syscall.Close(fd)
+				_, _ = f.Write([]byte(text[half:]))
+				_ = f.Close()
 				return
 			}
 		}()
